@@ -7,7 +7,7 @@
    enc_prog ls trailer            : byte code of the program with lines ls in the format
                                     00 | link(2) | num(2) | statements separated by ':' | ... | 00 00 00
    numok / setvar                 : do number conversion (C07) and variable assignment raise?  (oracles) *)
-From Coq Require Import ZArith List Bool.
+From Coq Require Import ZArith List Bool Permutation.
 From PCB Require Import lib.Result lib.PyInt gen.Gen_data model.Data proofs.Data_proofs.
 Import ListNotations.
 Open Scope Z_scope.
@@ -21,19 +21,21 @@ Proof. intros p tbl. split; reflexivity. Qed.
 Print Assumptions C22_run_restore.
 
 (* READ of a string variable takes the next entry and moves the pointer behind it (whatever the oracles answer) *)
-Theorem C22_read_string : forall numok setvar p cur dp ln it its e,
-  data_ahead p dp ln = (it :: its, e) ->
-  exists dp', read_one numok setvar p cur dp 0
-              = lift_unit (setvar 0 (VStr (it_str it))) (cur - 1) (Done (VStr (it_str it)) dp')
+Theorem C22_read_string : forall numok setvar p cur dp ln it its e tgt,
+  data_ahead p dp ln = (it :: its, e) -> is_str tgt = true ->
+  exists dp', read_one numok setvar p cur dp tgt
+              = lift_unit (setvar tgt (VStr (it_str it))) (cur - 1) (Done (VStr (it_str it)) dp')
               /\ data_ahead p dp' (it_line it) = (its, e).
 Proof. exact read_str_step. Qed.
 Print Assumptions C22_read_string.
 
-(* READ of a numeric variable from an entry that reads as a number *)
+(* READ of a numeric variable from an entry that reads as a number; a conversion error (Overflow ...) is raised
+   with the program stream behind the number text, an assignment error (subscript, overflow of the target type)
+   at the READ statement; in both cases the pointer stays *)
 Theorem C22_read_number : forall numok setvar p cur dp ln it its e tgt,
-  data_ahead p dp ln = (it :: its, e) -> tgt <> 0 -> it_numeric it = true ->
-  exists q dp', read_one numok setvar p cur dp tgt
-                = lift_unit (numok (it_word it)) q
+  data_ahead p dp ln = (it :: its, e) -> is_str tgt = false -> it_numeric it = true ->
+  exists dp', read_one numok setvar p cur dp tgt
+                = lift_unit (numok (it_word it)) (pos_of p (it_after it) - 1)
                     (lift_unit (setvar tgt (VNum (it_word it))) (cur - 1) (Done (VNum (it_word it)) dp'))
                 /\ data_ahead p dp' (it_line it) = (its, e).
 Proof. exact read_num_step. Qed.
@@ -68,12 +70,12 @@ Print Assumptions C22_out_of_data.
    entry; the data pointer stays in front of that entry *)
 Theorem C22_syntax_error : forall numok setvar,
   (forall w, numok w = Ok tt) -> (forall t v, setvar t v = Ok tt) ->
-  forall p cur dp ln its e ts tgt it,
+  forall p cur dp ln its e ts tgt rest it,
   data_ahead p dp ln = (its, e) -> (length ts <= length its)%nat ->
   forallb (fun ti => readable (fst ti) (snd ti)) (combine ts its) = true ->
   nth_error its (length ts) = Some it -> readable tgt it = false ->
   exists os dp' ln',
-    read_vars numok setvar p cur dp (ts ++ [tgt]) =
+    read_vars numok setvar p cur dp (ts ++ tgt :: rest) =
       (os ++ [Fail data_STX (pos_of p (it_rest it) - 1) (Some (VNum (it_word it)))], dp') /\
     map outcome_value os = map (fun ti => Some (value_for (fst ti) (snd ti))) (combine ts its) /\
     data_ahead p dp' ln' = (skipn (length ts) its, e).
@@ -83,13 +85,50 @@ Print Assumptions C22_syntax_error.
 (* an entry that is malformed even as a string (text behind a closing quote) stops every READ with Syntax error *)
 Theorem C22_malformed_entry : forall numok setvar p cur dp ln l w nrest srest tgt,
   data_ahead p dp ln = ([], BadEntry l w nrest srest) ->
-  (tgt = 0 -> read_one numok setvar p cur dp tgt = Fail data_STX (pos_of p srest - 1) None) /\
-  (tgt <> 0 -> exists q, read_one numok setvar p cur dp tgt
+  (is_str tgt = true -> read_one numok setvar p cur dp tgt = Fail data_STX (pos_of p srest - 1) None) /\
+  (is_str tgt = false -> exists q, read_one numok setvar p cur dp tgt
                          = lift_unit (numok w) q
                              (lift_unit (setvar tgt (VNum w)) (cur - 1)
                                 (Fail data_STX (pos_of p nrest - 1) (Some (VNum w))))).
 Proof. exact read_bad_entry. Qed.
 Print Assumptions C22_malformed_entry.
+
+(* a READ statement that fails at one of its variables (any reason, any oracles: Out of DATA, Syntax error in DATA,
+   conversion error, subscript out of range in the assignment ...): the variables before it have been assigned,
+   the data pointer stands behind the last entry that was read (the entries consumed stay consumed), the failing
+   variable's outcome is that of a single READ from there, the variables behind it are not touched *)
+Theorem C22_pointer_after_failed_read : forall numok setvar p cur ts dp os dp' tgt rest,
+  read_vars numok setvar p cur dp ts = (os, dp') ->
+  Forall (fun o => outcome_value o <> None) os ->
+  outcome_value (read_one numok setvar p cur dp' tgt) = None ->
+  read_vars numok setvar p cur dp (ts ++ tgt :: rest) = (os ++ [read_one numok setvar p cur dp' tgt], dp').
+Proof. exact read_vars_fail_mid. Qed.
+Print Assumptions C22_pointer_after_failed_read.
+
+(* READ with more variables than entries are left: the entries are assigned, then Out of DATA; the pointer stays
+   behind the last entry *)
+Theorem C22_out_of_data_mid_statement : forall numok setvar,
+  (forall w, numok w = Ok tt) -> (forall t v, setvar t v = Ok tt) ->
+  forall p cur dp ln its ts tgt rest,
+  data_ahead p dp ln = (its, EndOfData) -> length ts = length its ->
+  forallb (fun ti => readable (fst ti) (snd ti)) (combine ts its) = true ->
+  exists os dp' ln',
+    read_vars numok setvar p cur dp (ts ++ tgt :: rest) = (os ++ [Fail data_OUT_OF_DATA (cur - 1) None], dp') /\
+    map outcome_value os = map (fun ti => Some (value_for (fst ti) (snd ti))) (combine ts its) /\
+    data_ahead p dp' ln' = ([], EndOfData).
+Proof. exact out_of_data_after. Qed.
+Print Assumptions C22_out_of_data_mid_statement.
+
+(* READ outside run mode (direct mode): same values and same pointer; every error is raised without a position,
+   so ERL is 65535 and the message names no line; on a protected program: Illegal function call *)
+Theorem C22_direct_mode : forall numok setvar run p cur dp ts tbl,
+  let r := read_vars numok setvar p cur dp ts in
+  read_stmt numok setvar run false p cur dp ts = (map (direct run) (fst r), snd r) /\
+  map outcome_value (map (direct run) (fst r)) = map outcome_value (fst r) /\
+  (forall o e q part, In o (map (direct false) (fst r)) -> o = Fail e q part -> q = -1 /\ erl tbl q = 65535) /\
+  read_stmt numok setvar false true p cur dp ts = ([Fail 5 (-1) None], dp).
+Proof. exact direct_mode_thm. Qed.
+Print Assumptions C22_direct_mode.
 
 (* ---- level 2: programs in the modelled byte format ------------------------------------------- *)
 
@@ -99,52 +138,43 @@ Print Assumptions C22_malformed_entry.
 Theorem C22_program_order : forall ls trailer,
   forallb line_ok ls = true -> (length trailer <= 2)%nat ->
   exists its, data_items (enc_prog ls trailer) = (its, EndOfData) /\ Forall2 item_rel (prog_entries ls) its.
-Proof.
-  intros ls trailer H1 H2. destruct (prog_items ls trailer (-1) H1 H2) as [its [Ha [Hb _]]]. eauto.
-Qed.
+Proof. exact program_order_thm. Qed.
 Print Assumptions C22_program_order.
 
 (* RESTORE n: the line must exist; the pointer goes to the start of line n and stands in front of exactly the
-   entries of line n and the lines behind it (a suffix of data_items) *)
-Theorem C22_restore_n : forall ls1 l ls2 trailer,
+   entries of line n and the lines behind it (a suffix of data_items).  tbl = Program.line_numbers: a dictionary
+   with the content of table_of (any order) *)
+Theorem C22_restore_n : forall ls1 l ls2 trailer tbl,
   forallb line_ok (ls1 ++ l :: ls2) = true -> (length trailer <= 2)%nat -> ascending (-1) (ls1 ++ l :: ls2) = true ->
+  Permutation tbl (table_of (ls1 ++ l :: ls2) 0) ->
   let p := enc_prog (ls1 ++ l :: ls2) trailer in
   exists dp A B,
-    restore (table_of (ls1 ++ l :: ls2) 0) (Some (l_num l)) = Ok dp /\
+    restore tbl (Some (l_num l)) = Ok dp /\
     fst (data_items p) = A ++ B /\
     (forall ln, data_ahead p dp ln = (B, EndOfData)) /\
+    (forall ln, data_ahead p dp ln = data_items (enc_prog (l :: ls2) trailer)) /\
     Forall2 item_rel (prog_entries ls1) A /\ Forall2 item_rel (prog_entries (l :: ls2)) B.
-Proof.
-  intros ls1 l ls2 trailer Hok Ht Hasc p.
-  destruct (prog_items_split ls1 (l :: ls2) trailer (-1) Hok Ht) as [A [B [H1 [H2 [H3 H4]]]]].
-  exists (zlen (flat_map enc_line ls1)), A, B. split.
-  - rewrite restore_some, (assocz_table ls1 l ls2 0 (-1) Hasc). reflexivity.
-  - split; [unfold p; rewrite data_items_ia, H1; reflexivity|]. split; [|auto].
-    intros ln. change (ia ln (seek (enc_prog (ls1 ++ l :: ls2) trailer) (zlen (flat_map enc_line ls1))) = (B, EndOfData)).
-    rewrite seek_line.
-    rewrite (ia_prog_ln ln (-1)); [exact H2 | | exact Ht].
-    rewrite forallb_app in Hok. now apply andb_true_iff in Hok as [_ ?].
-Qed.
+Proof. exact restore_n_thm. Qed.
 Print Assumptions C22_restore_n.
 
-Theorem C22_restore_undefined : forall ls n,
+Theorem C22_restore_undefined : forall ls n tbl,
+  forallb line_ok ls = true -> ascending (-1) ls = true -> Permutation tbl (table_of ls 0) ->
   (forall l, In l ls -> l_num l <> n) -> n <> 65536 ->
-  restore (table_of ls 0) (Some n) = Err data_UNDEFINED_LINE_NUMBER.
-Proof. intros ls n H1 H2. rewrite restore_some, assocz_table_none by assumption. reflexivity. Qed.
+  restore tbl (Some n) = Err data_UNDEFINED_LINE_NUMBER.
+Proof. exact restore_undefined_thm. Qed.
 Print Assumptions C22_restore_undefined.
 
-(* the position of the Syntax error of C22_syntax_error lies in the line that holds the entry: ERL and the error
-   message name the DATA line (lines in ascending order, Program.line_numbers consistent with the byte code) *)
-Theorem C22_syntax_error_line : forall ls trailer k it,
+(* error LINES: for every entry of the program, the position of the Syntax error of C22_syntax_error (non-numeric
+   entry into a numeric variable) and the position of a conversion error of C22_read_number lie in the line that
+   holds the entry: ERL and the error message name the DATA line (lines in ascending order; tbl = the line
+   dictionary) *)
+Theorem C22_syntax_error_line : forall ls trailer tbl k it,
   forallb line_ok ls = true -> (length trailer <= 2)%nat -> ascending (-1) ls = true ->
+  Permutation tbl (table_of ls 0) ->
   nth_error (fst (data_items (enc_prog ls trailer))) k = Some it ->
-  get_line_number (table_of ls 0) (pos_of (enc_prog ls trailer) (it_rest it) - 1) = it_line it.
-Proof.
-  intros ls trailer k it Hok Ht Hasc Hn.
-  destruct (prog_items ls trailer (-1) Hok Ht) as [its [Ha [_ Hloc]]].
-  rewrite data_items_ia, Ha in Hn. simpl in Hn. apply nth_error_In in Hn.
-  rewrite Forall_forall in Hloc. apply located_line; auto.
-Qed.
+  let p := enc_prog ls trailer in
+  erl tbl (pos_of p (it_rest it) - 1) = it_line it /\ erl tbl (pos_of p (it_after it) - 1) = it_line it.
+Proof. exact error_line_thm. Qed.
 Print Assumptions C22_syntax_error_line.
 
 (* ---- non-vacuity ------------------------------------------------------------------------------ *)
@@ -155,16 +185,21 @@ Definition ex_l2 := {| l_link := (124, 18); l_lo := 20; l_hi := 0; l_stmts := [S
 Definition ex_l3 := {| l_link := (144, 18); l_lo := 30; l_hi := 0;
                        l_stmts := [SData [] [EPlain [32] [120] []; EQuoted [32] [97; 44; 98] [32]];
                                    SData [] [EPlain [] [53] []]] |}.
+Definition ex_l4 := {| l_link := (150, 18); l_lo := 40; l_hi := 0;
+                       l_stmts := [SOther [LCh 65; LCh 231; LTok 15 [58]] TNone; SData [32] [EMixedOpen [] [98] [99; 58]]] |}.
 Example C22_nonvacuous :
-  let ls := [ex_l1; ex_l2; ex_l3] in
+  let ls := [ex_l1; ex_l2; ex_l3; ex_l4] in
   let p := enc_prog ls [] in
   let ok := fun _ : list Z => @Ok unit tt in
   let oks := fun (_ : Z) (_ : val) => @Ok unit tt in
   forallb line_ok ls = true /\ ascending (-1) ls = true /\
-  map (fun it => (it_line it, it_str it)) (fst (data_items p)) = [(10, [49]); (30, [120]); (30, [97; 44; 98]); (30, [53])] /\
-  fst (read_vars ok oks p 40 0 [3; 3]) = [Done (VNum [49]) 8; Fail data_STX 20 (Some (VNum []))] /\
-  get_line_number (table_of ls 0) 20 = 30 /\
+  map (fun it => (it_line it, it_str it)) (fst (data_items p))
+    = [(10, [49]); (30, [120]); (30, [97; 44; 98]); (30, [53]); (40, [98; 34; 99; 58])] /\
+  fst (read_vars ok oks p 60 0 [3; 7; 0]) = [Done (VNum [49]) 8; Fail data_STX 20 (Some (VNum []))] /\
+  erl (table_of ls 0) 20 = 30 /\
+  fst (read_stmt ok oks false false p 60 0 [3; 7; 0]) = [Done (VNum [49]) 8; Fail data_STX (-1) (Some (VNum []))] /\
   restore (table_of ls 0) (Some 30) = Ok 14 /\
-  fst (read_vars ok oks p 40 14 [0; 0; 3; 0]) =
-    [Done (VStr [120]) 22; Done (VStr [97; 44; 98]) 30; Done (VNum [53]) 33; Fail data_OUT_OF_DATA 39 None].
+  fst (read_vars ok oks p 60 14 [0; 4; 3; 0; 0]) =
+    [Done (VStr [120]) 22; Done (VStr [97; 44; 98]) 30; Done (VNum [53]) 33; Done (VStr [98; 34; 99; 58]) 49;
+     Fail data_OUT_OF_DATA 59 None].
 Proof. vm_compute. repeat split; reflexivity. Qed.
